@@ -10,7 +10,7 @@ CastNode::CastNode(const Token &token, Node &node, PSC::DataType target)
 std::unique_ptr<NodeResult> CastNode::evaluate(PSC::Context &ctx) {
     auto value = node.evaluate(ctx);
 
-    if (!value->data->isPrimitive())
+    if (!value->data || !value->data->isPrimitive())
         throw PSC::TypeOperationError(token, ctx, "Cast");
     if (value->type == target) return value;
 
